@@ -204,6 +204,35 @@ func c19FromBytes(p vbase.Params, r *vbase.Result) {
 			}
 		}
 		check(b)
+		// the same bytes as a prefix of a larger buffer that holds other data behind them (a field decoded from a message
+		// buffer): adding an id beyond the prefix must not pick up what lies in the spare capacity
+		big := append(append([]byte(nil), b...), rng.Bytes(rng.Range(1, 24))...)
+		for k := len(b); k < len(big); k++ {
+			big[k] |= 0x81
+		}
+		bf := crypto.BitfieldFromBytes(big[:len(b)])
+		ideal := map[hotstuff.ID]bool{}
+		for i2, by := range b {
+			for k := 0; k < 8; k++ {
+				if by&(1<<k) != 0 {
+					ideal[hotstuff.ID(1+i2*8+k)] = true
+				}
+			}
+		}
+		var added []hotstuff.ID
+		for k := rng.Range(1, 3); k > 0; k-- {
+			id := hotstuff.ID(len(b)*8 + rng.Range(1, 120))
+			bf.Add(id)
+			ideal[id] = true
+			added = append(added, id)
+		}
+		probe := append([]hotstuff.ID{1, hotstuff.ID(len(b) * 8), hotstuff.ID(len(b)*8 + 1), hotstuff.ID(len(b)*8 + 8), hotstuff.ID(len(b)*8 + 9)}, added...)
+		if msg := checkSetView(&bf, ideal, probe, len(ideal)/2+1); msg != "" {
+			r.Violate(vbase.Sig("frombytes-grow", "q", msg[:8]), fmt.Sprintf("BitfieldFromBytes(prefix %x of a larger buffer) then Add%v: %s", b, added, msg), fmt.Sprintf("%x", b))
+		} else if bf.Len() != len(ideal) {
+			r.Violate("frombytes-grow-len", fmt.Sprintf("BitfieldFromBytes(prefix %x of a larger buffer) then Add%v: Len()=%d, %d ids inserted", b, added, bf.Len(), len(ideal)), fmt.Sprintf("%x", b))
+		}
+		r.Eval(true, fmt.Sprintf("grow/%x/%v", b, added))
 	}
 }
 
